@@ -228,6 +228,13 @@ package dht
 //@   callsite (*dht.Server).reply get-peers-values-and-token: m.Q == "get_peers" && s.config.PeerStore != nil ==> $r.Token != nil && *$r.Token == recorded("token") && $r.Values == recorded("filtered")
 //@   callsite (*dht.Server).reply get-carries-a-token: m.Q == "get" ==> $r.Token != nil && *$r.Token == recorded("token")
 //@   callsite (*dht.Server).createToken token-for-the-asker: $addr == source
+//@   callsite (*dht/bep44.Wrapper).Put the-item-of-this-query: m.A != nil && m.A.Seq != nil && $i.V == m.A.V && $i.K == m.A.K && $i.Salt == m.A.Salt && $i.Sig == m.A.Sig && $i.Cas == m.A.Cas && $i.Seq == *m.A.Seq
+//@   callsite (*dht.Server).sendError a-rejected-put-carries-the-error-of-the-store: m.Q == "put" && count("call:(*dht/bep44.Wrapper).Put") == 1 ==> recorded("puterr") != nil && (typeis(recorded("puterr"), krpc.Error) ==> $e == unbox(recorded("puterr"), krpc.Error))
+//@   callsite (*dht.Server).reply a-put-is-confirmed-only-if-the-store-took-it: m.Q == "put" ==> count("call:(*dht/bep44.Wrapper).Put") == 1 && recorded("puterr") == nil
+//@   callsite (*dht/bep44.Wrapper).Get the-requested-target: m.Q == "get" && m.A != nil && $t == m.A.Target
+//@   callsite (*dht.Server).reply get-sends-the-value-only-if-newer-than-the-seq-named: m.Q == "get" && $r.V != nil ==> recorded("gotitem") != nil && (m.A.Seq == nil || recorded("gotitem").Seq > *m.A.Seq) && $r.V == recorded("marshalled") && $r.K == recorded("gotitem").K && $r.Sig == recorded("gotitem").Sig
+//@   callsite (*dht.Server).reply get-reports-the-stored-seq: m.Q == "get" && count("call:(*dht/bep44.Wrapper).Get") == 1 && recorded("gotitem") != nil ==> $r.Seq != nil && *$r.Seq == recorded("gotitem").Seq
+//@   callsite github.com/anacrolix/torrent/bencode.MustMarshal the-stored-value: recorded("gotitem") != nil && $v == recorded("gotitem").V
 //@   callsite (*dht.Server).updateNode only-the-sender-itself-unless-read-only: $addr == source && $tryAdd == !m.ReadOnly
 //@   callsite (*dht.Server).validToken checks-the-query-token: m.A != nil && $token == m.A.Token && $addr == source
 //@   callsite (*dht.Server).sendError unknown-method-204: !known(m.Q) ==> $e.Code == 204
@@ -731,3 +738,31 @@ package dht
 //@   ensures no-port-no-query: port == 0 && !impliedPort ==> count("call:(*dht.Server).Query") == 0
 //@   ensures no-port-is-an-error: port == 0 && !impliedPort ==> ret.Err != nil
 //@   ensures one-query-otherwise: !(port == 0 && !impliedPort) ==> count("call:(*dht.Server).Query") == 1
+
+// ---- C19 / C04: the node filter every built-in lookup uses, and the read-only mark of passive nodes ----
+//@ func dht.validNodeAddr
+//@   trusted
+//@   option records validaddr
+// addrvalid(a): the netip address inside a is a valid 4- or 16-byte address (everything decoded from compact node
+// info is: C15; the zero value is not)
+//@ spec uf addrvalid(a krpc.NodeAddrPort) bool
+//@ func (dht/krpc.NodeAddrPort).IP
+//@   trusted
+//@   option records candidateip
+//@   ensures four-or-sixteen-bytes: addrvalid(me) ==> len(result) == 4 || len(result) == 16
+//@ func (*dht.Server).TraversalNodeFilter
+//@   requires nonnil: s != nil
+//@   requires networks: nets()
+//@   requires a-valid-address: addrvalid(node.Addr)
+//@   callsite (dht/krpc.NodeAddrPort).UDP the-candidate: $me == node.Addr
+//@   callsite dht.validNodeAddr the-candidate: typeis($addr, *net.UDPAddr) && unbox($addr, *net.UDPAddr) == recorded("udp")
+//@   callsite (dht/krpc.NodeAddrPort).IP the-candidate: $me == node.Addr
+//@   callsite (*dht.Server).ipBlocked the-candidate: $ip == recorded("candidateip")
+//@   ensures unusable-addresses-are-refused: !recorded("validaddr") ==> !result
+//@   ensures blocked-addresses-are-refused: recorded("validaddr") && recorded("srcblocked") ==> !result
+//@   ensures address-only-contacts-pass-otherwise: recorded("validaddr") && !recorded("srcblocked") && !node.Id.Ok ==> result
+
+//@ func (*dht.Server).makeQueryBytes
+//@   requires nonnil: s != nil
+//@   modifies *
+//@   callsite github.com/anacrolix/torrent/bencode.Marshal a-query-marked-read-only-iff-passive: typeis($v, krpc.Msg) && unbox($v, krpc.Msg).Y == "q" && unbox($v, krpc.Msg).Q == q && unbox($v, krpc.Msg).T == t && unbox($v, krpc.Msg).ReadOnly == s.config.Passive && unbox($v, krpc.Msg).A != nil && unbox($v, krpc.Msg).A.ID == s.id.bits
